@@ -75,6 +75,44 @@ def compare(v, code, ref):
     return 'C10:token-differs:cpython=%s:parso=%s' % (x[0] if x else None, y[0] if y else None)
 
 
+NUM_ALPHABET = '0179_.eEjxboaf+-'
+OP_ALPHABET = '!%&()*+,-./:;<=>@[]^`{|}~'
+
+
+def word_sweep(ctx, v, alphabet, maxlen, stream):
+    """search for a concrete word on which parso's token differs from the running CPython's (numbers / operators)"""
+    import itertools, io, tokenize as pytok, warnings
+    from parso.python.token import PythonTokenTypes as T
+    vi = parse_version_string(v)
+    found = 0
+    for n in range(1, maxlen + 1):
+        for tup in itertools.product(alphabet, repeat=n):
+            w = ''.join(tup)
+            if w == '<>':
+                continue      # only an operator under `from __future__ import barry_as_FLUFL`; no ordinary program CPython accepts contains it
+            ctx.count(stream)
+            try:
+                with warnings.catch_warnings():
+                    warnings.simplefilter('ignore')
+                    rt = [t for t in pytok.generate_tokens(io.StringIO(w + '\n').readline)
+                          if t.type not in (pytok.NEWLINE, pytok.NL, pytok.ENDMARKER)]
+                    ref_single = len(rt) == 1 and rt[0].string == w and rt[0].type in (pytok.NUMBER, pytok.OP)
+                    if ref_single and rt[0].type == pytok.NUMBER:
+                        compile('x = ' + w, '<c10>', 'exec')
+            except BaseException:
+                ref_single = False
+            toks = [t for t in tokenize(w + '\n', version_info=vi) if t.type not in (T.NEWLINE, T.ENDMARKER)]
+            mine_single = len(toks) == 1 and toks[0].string == w and toks[0].type in (T.NUMBER, T.OP)
+            if ref_single and not mine_single:
+                ctx.violation('C10:token-word-differs:%s' % ('number' if w[0] in '0123456789.' else 'operator'),
+                              dict(kind='input', version=v, input_text='x = ' + w + '\n', word=w,
+                                   cpython='one %s token' % pytok.tok_name[rt[0].type], parso=[(t.type.name, t.string) for t in toks]))
+                found += 1
+                if found >= 3:
+                    return found
+    return found
+
+
 def recheck(replay, text):
     """re-evaluate the comparison on a modified text (used by known-finding attribution)"""
     v = replay['version']
@@ -86,7 +124,14 @@ def recheck(replay, text):
 
 def run(ctx, b, drv):
     pend = base.Pending(ctx)
-    base.obligations(ctx, b, pend, ['Tok.v', 'Regex.v', 'Properties/C10.v'])
+    allok = base.obligations(ctx, b, pend, ['Tok.v', 'Regex.v', 'Properties/C10.v'])
+    import sys
+    gv = '%d.%d' % sys.version_info[:2]
+    # the same sweeps as the Coq theorems, on the implementation against the running CPython: this is what turns a
+    # broken obligation into a concrete replay (full length when the obligation failed or in the thorough tier)
+    deep = (not allok) or ctx.tier == 'thorough'
+    word_sweep(ctx, gv, NUM_ALPHABET, 4 if deep else 3, 'number-words')
+    word_sweep(ctx, gv, OP_ALPHABET, 3 if deep else 2, 'operator-words')
     base.mismatches(ctx, pend, streams.run_tok(ctx, base.scale(ctx, 1500), drv), None)
     base.mismatches(ctx, pend, streams.run_re(ctx, base.scale(ctx, 3000), drv), None)
     nfiles = 12 if ctx.tier == 'quick' else 120
